@@ -680,8 +680,7 @@ def oracle(c, obs):
                 fails.append('no %s metadata, but the export gave %s' % (c['axis'], obs))
             return fails
         if obs[0] != 'ok':
-            if _homogeneous(md):
-                fails.append('metadata export failed (%s) although every id has the same keys' % obs)
+            fails.append('metadata export failed (%s) although the axis has metadata' % obs)
             return fails
         cols = obs[1]
         if [r[0] for r in obs[2]] != ids:
@@ -775,6 +774,9 @@ def gen_case(rng, kind=None):
         spec = empty_spec(rng)
     else:
         spec = gen_spec(rng, mdkind=rng.choice([None, 'none']) if base == 'report' else 'none' if rng.random() < 0.7 else None)
+    if base == 'head' and not spec['sids']:
+        # the command reads a file, and to_json of a table without samples is not loadable (property C02)
+        spec = gen_spec(rng, mdkind='none')
     c = {'kind': k, 'spec': spec}
     r, n = len(spec['oids']), len(spec['sids'])
     x = rng.random()
@@ -872,9 +874,27 @@ def shrink(c):
 
 # ---------------------------------------------------------------- known findings
 def _f20(c, impl, model, fails):
-    """to_dataframe() (sparse) shows NaN where the matrix holds zero (pandas fill value)"""
-    return c['kind'] == 'sdf' and bool(fails) and impl == model and \
-        any(v is None for row in (impl[2] if isinstance(impl, list) and len(impl) == 3 else []) for v in row)
+    """to_dataframe() (sparse) shows NaN where the matrix holds zero (pandas fill value) -- and nothing else is wrong:
+    labels right, every non-zero cell right, every zero cell NaN or 0"""
+    if c['kind'] != 'sdf' or not fails or not (isinstance(impl, list) and len(impl) == 3):
+        return False
+    R = content(c)
+    M = R['M']
+    if impl[0] != R['oids'] or impl[1] != R['sids'] or len(impl[2]) != M.shape[0]:
+        return False
+    seen_nan = False
+    for i, row in enumerate(impl[2]):
+        if len(row) != M.shape[1]:
+            return False
+        for j, v in enumerate(row):
+            if M[i, j] != 0:
+                if v is None or float(v) != float(M[i, j]):
+                    return False
+            elif v is None:
+                seen_nan = True
+            elif float(v) != 0.0:
+                return False
+    return seen_nan
 
 
 def _widths(md):
